@@ -113,6 +113,42 @@ def unwritten_self_attributes(ctx, c, ext):
     return out
 
 
+def request_response_attribute_gaps(ctx, files):
+    """[(request class, response class, attr, node)] - a response class reads `<request>.<attr>` (the request is its first
+    constructor argument, kept as self.request) while no class in the MRO of a request class that names it as
+    `response_class` provides <attr>."""
+    out = []
+    classes = [c for c in ctx.model.classes.values() if c.module.relpath.replace(os.sep, "/") in files]
+    for r in classes:
+        rc = r.attrs.get("response_class")
+        if rc is None:
+            continue
+        q = ctx.folder.eval(rc, r.module)
+        from ..consteval import ClassRef
+
+        if not isinstance(q, ClassRef):
+            continue
+        provided = set()
+        for k in r.mro():
+            provided |= set(k.methods) | set(k.attrs)
+            for n in ast.walk(k.node):
+                if isinstance(n, ast.Attribute) and isinstance(n.ctx, ast.Store) and isinstance(n.value, ast.Name) and n.value.id == "self":
+                    provided.add(n.attr)
+                elif isinstance(n, ast.AnnAssign) and isinstance(n.target, ast.Name):
+                    provided.add(n.target.id)
+        for k in q.ci.mro():
+            for name, meth in k.methods.items():
+                req_names = {"request"} if any(a.arg == "request" for a in meth.args.args) else set()
+                for n in ast.walk(meth):
+                    if not (isinstance(n, ast.Attribute) and isinstance(n.ctx, ast.Load)):
+                        continue
+                    v = n.value
+                    is_req = (isinstance(v, ast.Name) and v.id in req_names) or (isinstance(v, ast.Attribute) and v.attr == "request" and isinstance(v.value, ast.Name) and v.value.id == "self")
+                    if is_req and n.attr not in provided and not (n.attr.startswith("__") and n.attr.endswith("__")):
+                        out.append((r, q.ci, n.attr, n))
+    return out
+
+
 def _make_attr(prop, files):
     @rule(prop, f"D{int(prop[1:])}.A", "T-DEFUSE", floor=1)
     def attribute_initialisation(ctx):
@@ -130,10 +166,72 @@ def _make_attr(prop, files):
                               attrs=sorted({p_[0] for p_ in probs}))
             else:
                 ctx.ok(f"{key}#attrs", c.node, "every attribute read on self/cls is provided by the class family")
+        seen = set()
+        for r, q, a, node in request_response_attribute_gaps(ctx, files):
+            k_ = f"{r.key}#response-reads:{a}"
+            if k_ in seen:
+                continue
+            seen.add(k_)
+            ctx.violation(k_, node, f"{q.name} (the response class of {r.name}) reads `request.{a}` but no class in {r.name}'s MRO provides `{a}`: AttributeError when the reply is built")
 
     return attribute_initialisation
+
+
+def _external_reads(ctx):
+    """{attr: first node} - loads of `.attr` on a receiver other than self/cls anywhere in the package."""
+    if not hasattr(ctx, "_ext_reads"):
+        out = {}
+        for mod in ctx.model.modules.values():
+            for n in ast.walk(mod.tree):
+                if isinstance(n, ast.Attribute) and isinstance(n.ctx, ast.Load) and not (isinstance(n.value, ast.Name) and n.value.id in ("self", "cls")):
+                    out.setdefault(n.attr, (mod, n))
+        ctx._ext_reads = out
+    return ctx._ext_reads
+
+
+def _make_ctor(prop, files):
+    @rule(prop, f"D{int(prop[1:])}.I", "T-DEFUSE", floor=1)
+    def constructor_initialisation(ctx):
+        """Every attribute that the methods of a class store on self and that anything reads is stored on EVERY path through
+        the class's constructor chain (super().__init__ and self.method() calls followed through the MRO), or provided at
+        class level; and no method called from inside the constructor reads an attribute before the chain has stored it.
+        A dropped initialisation, a dropped super().__init__() or an initialisation moved behind a branch leaves the read
+        raising AttributeError instead of the promised behaviour."""
+        from .. import ctorinit
+
+        ext = _external_reads(ctx)
+        for key, c in sorted(ctx.model.classes.items()):
+            if c.module.relpath.replace(os.sep, "/") not in files:
+                continue
+            d, early, level = ctorinit.analyse(ctx, c)
+            if d is None:
+                continue
+            if early:
+                a, node, stack = early[0]
+                via = " -> ".join(f"{k.split(':')[-1]}.{m}" for k, m in stack)
+                ctx.violation(f"{key}#early-read:{a}", node, f"constructing {c.name} reads `self.{a}` (via {via}) before any statement of the constructor chain has stored it and the class does not provide it: AttributeError inside the constructor",
+                              attrs=sorted({e[0] for e in early}))
+                continue
+            reads = ctorinit.self_reads(c)
+            gaps = []
+            for a in sorted(ctorinit.possibly_stored(c) - d - level):
+                if a in reads:
+                    k, m, n = reads[a][0]
+                    gaps.append((a, n, f"{k.name}.{m.name} reads self.{a}"))
+                elif a in ext:
+                    mod, n = ext[a]
+                    gaps.append((a, n, f"{mod.name}:{n.lineno} reads .{a}"))
+            if gaps:
+                a, node, why = gaps[0]
+                ctx.violation(f"{key}#uninitialised:{a}", node, f"`{a}` is stored on a {c.name} only on some paths (not on every path through its constructor chain, not at class level) while {why}: AttributeError on the instances that took the other path",
+                              attrs=sorted({g[0] for g in gaps}))
+            else:
+                ctx.ok(f"{key}#ctor", c.node, f"constructor chain definitely stores {len(d)} attribute(s); every stored-and-read attribute is among them", definite=sorted(d))
+
+    return constructor_initialisation
 
 
 for _prop, _files in sorted(_anchor_files().items()):
     _make(_prop, set(_files))
     _make_attr(_prop, set(_files))
+    _make_ctor(_prop, set(_files))
